@@ -148,6 +148,7 @@ def run(ctx):
            "_error_abort is assigned %s" % [v for _, _, v in writes])
 
     # ------------------------------------------------------------ R15.2 / R15.4
+    strpos._DB[0] = db
     n_judged = n_not = 0
     for f in db.functions:
         if "bison" in f.file:
@@ -174,14 +175,13 @@ def run(ctx):
         from .C20 import _subscripts
         for node, cont, idx in _subscripts(f):
             ix = strip_casts(idx)
-            strpos._ALIAS.clear()
-            strpos._ALIAS.update(strpos.size_aliases(f))
+            strpos._prepare(f)
             cls = strpos.classify_position(ix) if ix is not None else None
             if cls is None or cls[0] != "size-minus":
                 continue
-            if cls[1] != show(cont):
+            if cls[1] != strpos.subject(cont):
                 continue
-            ok, desc, need = strpos.judge_need(f, node, show(cont), cls[2])
+            ok, desc, need = strpos.judge_need(f, node, strpos.subject(cont), cls[2])
             ctx.ob("R15.4", "%s|%s" % (f.name, _norm(show(node))), ok, f.loc(node), desc)
     ctx.floor("R15.2", "judged string-position sites", n_judged, 15)
     ctx.info("R15.2: %d position arguments that are loop indices / find() results were enumerated, not judged" % n_not)
